@@ -30,8 +30,10 @@ def run(ctx):
     ]
     return ctx.finish(
         level="proof",
-        rule="a class is a distinct (reference form, reference kind fn/const/type, block depth or signature position, "
-             "outcome incl. compile-error class) tuple observed on a reference, or a distinct whole-tree outcome",
+        rule="a class is a distinct (reference form, reference kind fn/const/type, block depth or module-level position "
+             "(signature / record field / constant initialiser), outcome incl. compile-error class) tuple observed on a "
+             "reference, or a distinct whole-tree outcome; evaluations count compilations, calls, get_function probes, "
+             "scope-graph comparisons, oracle verdicts and discovery comparisons",
         search=search,
     )
 
